@@ -1,13 +1,22 @@
 #!/bin/bash
-# tools/try_mutant.sh DIR Cnn [more ids]: confirm the demo (fails with patch, passes without), then run our checks against the patched /repo
+# tools/try_mutant.sh DIR Cnn [more ids]: confirm the demo (exit 0 without / 1 with the patch) and run our checks
+# against a scratch worktree carrying the patch (VERIF_REPO), so that concurrent work on /repo is not disturbed.
+# With REAL=1 the patch is applied to /repo itself and reverted afterwards (the procedure of the brief).
 d=$1; shift
-cd /repo && git status --short | grep -v '^??' && { echo "/repo not clean"; exit 2; }
-echo "== demo on clean /repo"; /venv/bin/python $d/demo.py /repo >/tmp/mut/demo_clean.log 2>&1; echo "rc=$?"
-git -C /repo apply $d/patch.diff || { echo "patch does not apply"; exit 2; }
-echo "== demo on patched /repo"; /venv/bin/python $d/demo.py /repo >/tmp/mut/demo_patched.log 2>&1; echo "rc=$?"; tail -3 /tmp/mut/demo_patched.log
+if [ -n "$REAL" ]; then
+  T=/repo
+  git -C /repo status --short | grep -v '^??' && { echo "/repo not clean"; exit 2; }
+else
+  T=/tmp/mut/_try/repo
+  [ -d $T ] || git -C /repo worktree add --detach $T HEAD >/dev/null 2>&1
+  git -C $T checkout -q -- . 
+fi
+echo "== demo on clean tree"; /venv/bin/python $d/demo.py $T >/tmp/mut/demo_clean.log 2>&1; echo "rc=$?"
+git -C $T apply $d/patch.diff || { echo "patch does not apply"; exit 2; }
+echo "== demo on patched tree"; /venv/bin/python $d/demo.py $T >/tmp/mut/demo_patched.log 2>&1; echo "rc=$?"; tail -2 /tmp/mut/demo_patched.log | cut -c1-300
 for id in "$@"; do
-  echo "== check $id on patched /repo"
-  (cd /verif && ./check $id 2>&1 | grep -E "^(VIOLATION|$id quick|  broken)" | cut -c1-400)
+  echo "== check $id on patched tree"
+  (cd /verif && VERIF_REPO=$T ./check $id 2>&1 | grep -E "^(VIOLATION|$id quick|  broken)" | cut -c1-400)
 done
-git -C /repo checkout -- . ; git -C /repo status --short | grep -v '^??'
+git -C $T checkout -q -- . ; git -C $T status --short | grep -v '^??'
 echo "== reverted"
